@@ -42,12 +42,16 @@ bool ops_codec(Ctx& c, const json& s, int idx, bool& handled) {
 		struct Mode { const char* name; long size; };
 		std::vector<Mode> modes{{"mixed", -1}, {"ibuf", 0}, {"data1", 1}, {"data7", 7}, {"data61", 61}, {"data62", 62}, {"data4033", 4033}, {"data4034", 4034}, {"data4095", 4095}, {"data4096", 4096}, {"data4097", 4097}, {"data20000", 20000}};
 		if (wantErr || wantLen > 200000) modes.resize(3);
+		// ... plus the TLC-generated schedules (spec/MC_LzhSched.tla): a list of calls applied cyclically, 0 = GetInternalBuffer, n = GetData(n)
+		std::vector<std::vector<long>> scheds; std::vector<std::string> schedNames; if (s.contains("schedules") && !wantErr && wantLen <= 200000) for (auto& sc : s["schedules"]) { std::vector<long> v; std::string nm = "sched"; for (auto& c : sc) { v.push_back(c.get<long>()); nm += "." + std::to_string(c.get<long>()); } scheds.push_back(v); schedNames.push_back(nm); }
+		for (std::size_t k = 0; k < scheds.size(); ++k) modes.push_back({schedNames[k].c_str(), -2 - (long)k});
 		for (const Mode& md : modes) { const std::string msite = site + "/" + md.name; Proto::sanitize(Proto::g_site, sizeof Proto::g_site, msite);
 			unsigned long a = 1, b = 0; unsigned long long n = 0; bool err = false;
 			Archive::HuffLZ z(Archive::BitStreamReader(in.data(), in.size())); std::vector<char> buf(20000); std::mt19937_64 rng(Proto::g_seed + len);
 			auto fold = [&](const char* p, std::size_t c) { for (std::size_t i = 0; i < c; ++i) { a = (a + (unsigned char)p[i]) % 65521; b = (b + a) % 65521; } n += c; };
-			try { for (;;) { std::size_t c = 0; bool ibuf = md.size == 0 || (md.size < 0 && rng() % 3 == 0);
-					if (ibuf) { const char* p = z.GetInternalBuffer(&c); fold(p, c); if (c == 0) break; } else { std::size_t want = md.size > 0 ? (std::size_t)md.size : 1 + rng() % 4999; c = z.GetData(buf.data(), want); fold(buf.data(), c); if (c < want) break; }
+			const std::vector<long>* sched = md.size <= -2 ? &scheds[(std::size_t)(-2 - md.size)] : nullptr; std::size_t step = 0;
+			try { for (;;) { std::size_t c = 0; const long call = sched ? (*sched)[step++ % sched->size()] : -1; bool ibuf = sched ? call == 0 : (md.size == 0 || (md.size < 0 && rng() % 3 == 0));
+					if (ibuf) { const char* p = z.GetInternalBuffer(&c); fold(p, c); if (c == 0) break; } else { std::size_t want = sched ? (std::size_t)call : md.size > 0 ? (std::size_t)md.size : 1 + rng() % 4999; c = z.GetData(buf.data(), want); fold(buf.data(), c); if (c < want) break; }
 					if (n > wantLen + 100000) break; } }
 			catch (const std::exception&) { err = true; }
 			auto note = [&] { return where(kind + "[" + std::to_string(len) + "] drained by " + md.name + ": delivered " + std::to_string(n) + " bytes, want " + std::to_string(wantLen) + (wantErr ? " then an error" : "")); };
